@@ -61,6 +61,9 @@ pub struct Faults {
     pub sii_cmd_errors: u32,
     /// The mailbox out (read) SM stays empty for this many status polls after a request was written.
     pub mbx_lag_polls: u32,
+    /// Do not service configured-address reads (FPRD) of this register (e.g. 0x0130: the per-cycle
+    /// state check goes unanswered while everything else works).
+    pub deaf_to_fprd: Option<u16>,
 }
 
 #[derive(Clone, Debug, Default)]
@@ -281,6 +284,9 @@ impl Device {
             if self.first_refused.is_none() {
                 self.first_refused = Some((cmd, ado));
             }
+            return false;
+        }
+        if cmd == crate::wire::CMD_FPRD && self.faults.deaf_to_fprd == Some(ado) {
             return false;
         }
         self.stats.datagrams_serviced += 1;
